@@ -138,4 +138,6 @@ def run(tw, tier, seed, only=None):
 
 
 def replay(tw, desc):
-    return {"note": "random case; re-run the quick check with the same VERIF_SEED to regenerate", "violations": desc.get("violations", [])}
+    """cases are generated from a seed: the bounded run is repeated on the current tree and the failures of the recorded function are reported"""
+    res = run(tw, "quick", int(desc.get("seed", 0) or 0))
+    return {"violations": [v for f in res["failures"] if f.get("function") == desc.get("function") for v in f["violations"]]}
